@@ -12,6 +12,7 @@ import (
 	"os/exec"
 	"path/filepath"
 	"regexp"
+	"runtime/debug"
 	"runtime/pprof"
 	"sort"
 	"strconv"
@@ -172,6 +173,8 @@ func main() {
 		fmt.Fprintln(os.Stderr, "usage: gose check <ID> [--tier quick|thorough] [--harness F] | gose replay <ID> <file>")
 		os.Exit(2)
 	}
+	// the interpreter allocates heavily (boxed values); memory is plentiful, GC time is not
+	debug.SetGCPercent(800)
 	switch os.Args[1] {
 	case "check":
 		os.Exit(cmdCheck(os.Args[2:]))
